@@ -165,7 +165,11 @@ func TestVerifC02_ExactlyOnce(t *testing.T) {
 var e4OptsC03 = e4GenOpts{MaxSteps: 14, QoSWeights: []int{2, 3, 3}, SubWeight: 3, MaxFaults: 6, AllowRefuse: true, Outages: true, PreConnect: true}
 
 func TestVerifC03_Order(t *testing.T) {
-	vRun(t, "C03", vOpts{CurFile: true, ReplayReps: 25}, func(rt *rapid.T) e4Case { return e4GenCase(rt, e4OptsC03) },
+	vRun(t, "C03", vOpts{CurFile: true, ReplayReps: 25}, func(rt *rapid.T) e4Case {
+		c := e4GenCase(rt, e4OptsC03)
+		c.Cfg.DirectQoS0 = false // the property speaks of the default (queued) publishing mode
+		return c
+	},
 		func(tb rapid.TB, c e4Case) {
 			e4Check(tb, "C03", c, e4OracleC03, func(r *e4Result) (bool, []string) {
 				pending, _ := e4PendingAtFaults(r)
